@@ -38,7 +38,7 @@ def newctx(path):
 
 
 # title universe: (stored title without prefix, namespace id)
-PAGES = [("Foo", 10), ("IPAchar", 10), ("foo bar", 828), ("Foo", 0), ("lower", 10), ("Lower", 10)]
+PAGES = [("Foo", 10), ("IPAchar", 10), ("foo bar", 828), ("Foo", 0), ("lower", 10), ("Lower", 10), ("ru:noun", 10)]
 BODIES = ["b1", "b2 with  spaces\n", ""]
 
 
@@ -83,7 +83,7 @@ for pi, (name, ns) in enumerate(PAGES):
         OPS.append(("add", pi, bi))
     OPS.append(("redir", pi))
     OPS.append(("lookup", pi))
-OPS += [("commit",), ("reopen",)]
+OPS += [("commit",), ("reopen",), ("close_reopen",)]
 
 
 def model_key(name, ns, ctx):
@@ -179,10 +179,13 @@ def run_sequence(seq, idx):
             elif op[0] == "commit":
                 ctx.db_conn.commit()
                 committed = {k: dict(v) for k, v in model.items()}
-            elif op[0] == "reopen":
+            elif op[0] in ("reopen", "close_reopen"):
                 ctx.db_conn.commit()
                 committed = {k: dict(v) for k, v in model.items()}
-                ctx.db_conn.close()
+                if op[0] == "close_reopen":
+                    ctx.close_db_conn()          # the documented way to finish with a context
+                else:
+                    ctx.db_conn.close()
                 ctx = newctx(path)
                 # committed content identical through a new context
                 rows = {(p.title, p.namespace_id): {"body": p.body, "redirect_to": p.redirect_to, "model": p.model}
@@ -206,7 +209,7 @@ for n in range(1, maxlen + 1):
         seqs = rng.sample(seqs, 1500)
     for seq in seqs:
         # keep only sequences with at least one lookup after at least one write, or a reopen
-        if not any(o[0] in ("lookup", "reopen") for o in seq):
+        if not any(o[0] in ("lookup", "reopen", "close_reopen") for o in seq):
             continue
         try:
             run_sequence(list(seq), idx % 8)
